@@ -762,7 +762,36 @@ func (cs *Contracts) declared(name string) (declFun, bool) {
 						}
 					}
 				} else {
-					d.args = strings.Fields(argText)
+					// sorts, some of them compound: (Array Int Val)
+					depth, start := 0, -1
+					for k := 0; k < len(argText); k++ {
+						ch := argText[k]
+						switch {
+						case ch == '(':
+							if depth == 0 {
+								start = k
+							}
+							depth++
+						case ch == ')':
+							depth--
+							if depth == 0 {
+								d.args = append(d.args, argText[start:k+1])
+								start = -1
+							}
+						case ch == ' ' || ch == '\t':
+							if depth == 0 && start >= 0 {
+								d.args = append(d.args, argText[start:k])
+								start = -1
+							}
+						default:
+							if depth == 0 && start < 0 {
+								start = k
+							}
+						}
+					}
+					if start >= 0 && depth == 0 {
+						d.args = append(d.args, argText[start:])
+					}
 				}
 				ret := strings.TrimSpace(rest[j+1:])
 				if strings.HasPrefix(ret, "(") {
